@@ -3,6 +3,14 @@
 ARCHES = ["x86_64", "aarch64", "ppc64le", "s390x", "i386", "armhfp"]
 ARCHES_BAD = ["src", "nosrc", "", "x86", "X86_64", "sparc65", None, 5, "SRC", "src ", "x86_64 "]
 
+# productmd.common.RPM_ARCHES as documented at the pinned commit (61 names; src and nosrc are the source ones)
+RPM_ARCHES_DOC = ['aarch64', 'alpha', 'alphaev4', 'alphaev45', 'alphaev5', 'alphaev56', 'alphaev6', 'alphaev67', 'alphaev68', 'alphaev7',
+                  'alphapca56', 'amd64', 'arm64', 'armhfp', 'armv5tejl', 'armv5tel', 'armv5tl', 'armv6hl', 'armv6l', 'armv7hl', 'armv7hnl',
+                  'armv7l', 'armv8hl', 'armv8l', 'athlon', 'geode', 'i386', 'i486', 'i586', 'i686', 'ia32e', 'ia64', 'loongarch64', 'mips',
+                  'mips64', 'mips64el', 'mipsel', 'noarch', 'nosrc', 'ppc', 'ppc64', 'ppc64iseries', 'ppc64le', 'ppc64p7', 'ppc64pseries',
+                  'riscv128', 'riscv32', 'riscv64', 's390', 's390x', 'sh3', 'sh4', 'sh4a', 'sparc', 'sparc64', 'sparc64v', 'sparcv8',
+                  'sparcv9', 'sparcv9v', 'src', 'x86_64']
+
 RELEASE_TYPES = ["fast", "ga", "updates", "updates-testing", "eus", "aus", "els", "tus", "e4s"]
 COMPOSE_TYPES = ["test", "ci", "nightly", "production", "development"]
 LABEL_NAMES = ["EA", "DevelPhaseExit", "InternalAlpha", "Alpha", "InternalSnapshot", "Beta", "Snapshot",
